@@ -524,6 +524,56 @@ def pmap(fn, items, workers=NCPU, chunksize=None):
         return list(ex.map(fn, items, chunksize=cs))
 
 
+def _call_into(fn, item, q, idx):
+    try:
+        q.put((idx, "ok", fn(item)))
+    except BaseException as e:  # noqa: BLE001
+        q.put((idx, "exc", f"{type(e).__name__}: {e}"))
+
+
+def pmap_deadline(fn, items, deadline_s: float, workers=NCPU):
+    """Parallel map that cannot hang: every item runs in a worker process of a pool that is terminated at the
+    deadline.  Returns (results, unfinished) where results[i] is fn(items[i]) or None and unfinished lists the
+    indices that did not finish (a hang or a crash of the implementation under test inside fn)."""
+    import multiprocessing as mp
+    items = list(items)
+    ctx = mp.get_context("fork")
+    pool = ctx.Pool(min(workers, max(1, len(items))))
+    asyncs = [pool.apply_async(fn, (it,)) for it in items]
+    results = [None] * len(items)
+    unfinished = []
+    t_end = time.time() + deadline_s
+    for i, a in enumerate(asyncs):
+        try:
+            results[i] = a.get(timeout=max(0.05, t_end - time.time()))
+        except mp.TimeoutError:
+            unfinished.append(i)
+        except BaseException as e:  # noqa: BLE001 - exception inside fn: the check module decides what it means
+            results[i] = {"__worker_exception__": f"{type(e).__name__}: {e}"}
+    pool.terminate()
+    pool.join()
+    return results, unfinished
+
+
+def run_with_timeout(fn, item, timeout_s: float):
+    """fn(item) in a fresh process; returns ("ok", value) | ("timeout", None) | ("exc", text)."""
+    import multiprocessing as mp
+    ctx = mp.get_context("fork")
+    q = ctx.Queue()
+    p = ctx.Process(target=_call_into, args=(fn, item, q, 0))
+    p.start()
+    p.join(timeout_s)
+    if p.is_alive():
+        p.kill()
+        p.join()
+        return "timeout", None
+    try:
+        _i, kind, val = q.get(timeout=1)
+        return kind, val
+    except Exception:  # noqa: BLE001
+        return "exc", "worker died without a result"
+
+
 def main_entry(run_fn, prop: str):
     import argparse
     ap = argparse.ArgumentParser()
